@@ -134,7 +134,7 @@ func VerifHarness_C14_refresh_round() {
 
 // Permission refresh round: one CreatePermission for all current peers; nothing when there is none.
 //
-//verif:props=C14 unwind=80 bounds="0..2 permitted peers (IPv4/IPv6); every server reaction to each of up to 3 attempts"
+//verif:props=C14,C18 unwind=80 bounds="0..2 permitted peers (IPv4/IPv6); every server reaction to each of up to 3 attempts"
 func VerifHarness_C14_permission_refresh_round() {
 	fc := &vClient{fixed: -1}
 	c := vNewUDPConn(fc)
